@@ -346,6 +346,15 @@ def stale_result_failures():
     }
     fails = []
     for name, (fn, mk, which) in cases.items():
+        try:
+            _stale_case(name, fn, mk, which, fails, sc)
+        except Exception as e:  # noqa: BLE001 -- the real function raised on ordinary arguments
+            fails.append({'id': name, 'function': name, 'problem': f'raised {type(e).__name__}: {e}'})
+    return fails
+
+
+def _stale_case(name, fn, mk, which, fails, sc):
+    if True:
         kw = mk()
         r1 = fn(**kw)
         r1_copy = r1.copy()
@@ -357,15 +366,14 @@ def stale_result_failures():
         want = fn(**{k: v.copy() for k, v in kw.items()})
         if not sc.identical(r2, want):
             fails.append({'id': name, 'function': name, 'problem': f'after changing `{which}` in place the function still answers for the old value: {r2.values} instead of {want.values}'})
-            continue
+            return
         if r2 is r1:
             fails.append({'id': name, 'function': name, 'problem': 'consecutive calls return the same object'})
-            continue
+            return
         r2 *= 0.5          # changing one result must not change an earlier or a later one
         r3 = fn(**kw)
         if not sc.identical(r1, r1_copy) or not sc.identical(r3, want):
             fails.append({'id': name, 'function': name, 'problem': 'results of consecutive calls share storage (changing one changes another)'})
-    return fails
 
 
 def freshness_native(chk):
